@@ -12,6 +12,11 @@
 (*   N      sample size, nobs number of observations, excl excluded rows   *)
 (*   L      final log likelihood, L0 initial, Ln null (both optional)      *)
 (*   g      gradient (integers), H Hessian, B BHHH (integer KxK matrices)  *)
+(*   hs, bs positive rational scale factors: the Hessian of the outcome is *)
+(*          hs * H and its BHHH is bs * B, so that entries such as 1/3 or  *)
+(*          -9/7, which no binary floating-point number represents, occur  *)
+(*          (a singular hs * H is then in general NOT exactly singular     *)
+(*          once the driver has rounded its entries to floats)             *)
 (*   boot   optional R x K integer matrix of bootstrap replications        *)
 (*   mc     Monte-Carlo flag (adds pass-through rows to the general table) *)
 (* Optional values are records [ex |-> BOOLEAN, v |-> value]: TLC equality *)
@@ -44,6 +49,11 @@ Absent     == [ex |-> FALSE, v |-> Zero]
 Present(x) == [ex |-> TRUE, v |-> x]
 Opt(b, x)  == [def |-> b, v |-> IF b THEN x ELSE Zero]
 QAbs(x)    == IF x.n < 0 THEN QNeg(x) ELSE x
+\* product / quotient of two rationals, cancelling across BEFORE multiplying (32-bit integers of TLC)
+QMulX(x, y) == LET g1 == Gcd(Abs(x.n), y.d)
+                   g2 == Gcd(Abs(y.n), x.d)
+               IN  Q((x.n \div g1) * (y.n \div g2), (x.d \div g2) * (y.d \div g1))
+QDivX(x, y) == QMulX(x, QInv(y))
 
 (***************************************************************************)
 (* Integer matrices (sequences of rows).                                   *)
@@ -124,13 +134,25 @@ PenroseHolds(A, X, n) ==     \* X = [num, den] is the Moore-Penrose inverse of A
     /\ MMul(X.num, MMul(A, X.num, n), n) = MScale(X.den, X.num, n)
     /\ MIsSym(MMul(A, X.num, n), n)
     /\ MIsSym(MMul(X.num, A, n), n)
+\* the same for the rational matrix (s.n / s.d) A:  (s A) X (s A) = s A,  X (s A) X = X,  (s A) X and X (s A) symmetric
+PenroseHoldsScaled(A, s, X, n) ==
+    /\ MScale(s.n, MMul(A, MMul(X.num, A, n), n), n) = MScale(s.d * X.den, A, n)
+    /\ MScale(s.n, MMul(X.num, MMul(A, X.num, n), n), n) = MScale(s.d * X.den, X.num, n)
+    /\ MIsSym(MMul(A, X.num, n), n)
+    /\ MIsSym(MMul(X.num, A, n), n)
 
 (***************************************************************************)
 (* The three variance-covariance estimators.                               *)
 (***************************************************************************)
-ClassicalCov(o) == PInvSym(MNeg(o.H, o.K), o.K)                 \* (-H)^+
-RobustCov(o) ==                                                 \* (-H)^+ B (-H)^+
-    LET V == ClassicalCov(o) IN RM(MMul(V.num, MMul(o.B, V.num, o.K), o.K), V.den * V.den, o.K)
+\* The Hessian is hs * H and the BHHH is bs * B with rationals hs, bs > 0.  The Moore-Penrose inverse of
+\* s A is (1/s) A^+ (s # 0): the four Penrose conditions are homogeneous (invariant Penrose checks them
+\* on the scaled matrix).
+ClassicalCov(o) ==                                              \* (-(hs H))^+ = (1/hs) (-H)^+
+    LET V0 == PInvSym(MNeg(o.H, o.K), o.K) IN RM(MScale(o.hs.d, V0.num, o.K), V0.den * o.hs.n, o.K)
+RobustCov(o) ==                                                 \* V (bs B) V with V = (-(hs H))^+
+    LET V == ClassicalCov(o)
+    IN  RM(MScale(o.bs.n, MMul(V.num, MMul(o.B, V.num, o.K), o.K), o.K), V.den * V.den * o.bs.d, o.K)
+RankH(o) == SymRank(MNeg(o.H, o.K), o.K)                        \* rank of the Hessian (a scale > 0 keeps it)
 BootCov(o) ==                                                   \* unbiased sample covariance
     LET X == o.boot.r
         R == Len(X)
@@ -168,7 +190,7 @@ FamilyStats(o, C, P, ex) ==
      allpos |-> \A i \in 1..n : pos(C, i),
      se     |-> [i \in 1..n |-> Opt(pos(C, i), Sqrt(var(C, i)))],
      t      |-> [i \in 1..n |-> Opt(pos(C, i), Div(o.theta[i], Sqrt(var(C, i))))],
-     t2     |-> [i \in 1..n |-> Opt(pos(C, i), QDiv(QMul(o.theta[i], o.theta[i]), var(C, i)))],
+     t2     |-> [i \in 1..n |-> Opt(pos(C, i), QDivX(QMul(o.theta[i], o.theta[i]), var(C, i)))],
      p      |-> [i \in 1..n |-> Opt(pos(P, i), PValue(Div(QAbs(o.theta[i]), Sqrt(var(P, i)))))],
      pairs  |-> [k \in 1..Len(Pairs(n)) |->
                    LET i == Pairs(n)[k][1]
@@ -425,17 +447,19 @@ WellFormed(o) ==
     /\ Len(o.g) = o.K /\ Len(o.H) = o.K /\ Len(o.B) = o.K
     /\ \A i, j \in 1..o.K : i # j => o.names[i] # o.names[j]
     /\ MIsSym(o.H, o.K) /\ MIsSym(o.B, o.K)
-    /\ o.N >= 1
+    /\ IsQ(o.hs) /\ o.hs.n > 0 /\ o.hs.d > 0 /\ IsQ(o.bs) /\ o.bs.n > 0 /\ o.bs.d > 0
+    /\ o.N >= 1 /\ o.nobs >= o.N       \* panel data: the sample size counts individuals, each with >= 1 observation
     /\ o.boot.ex => Len(o.boot.r) >= 2 /\ \A r \in 1..Len(o.boot.r) : Len(o.boot.r[r]) = o.K
 RawWellFormed == phase = "raw" => WellFormed(raw)
 
 \* the pseudo-inverse used for the classical covariance satisfies the four Penrose conditions;
 \* it is the inverse whenever -H is regular
 Penrose == phase = "raw" =>
-    LET A == MNeg(raw.H, raw.K)
+    LET A == MNeg(raw.H, raw.K)                     \* minus the Hessian is hs * A
         V == ClassicalCov(raw)
-    IN  /\ PenroseHolds(A, V, raw.K)
-        /\ Det(A, raw.K) # 0 => MMul(A, V.num, raw.K) = MScale(V.den, MId(raw.K), raw.K)
+    IN  /\ PenroseHoldsScaled(A, raw.hs, V, raw.K)
+        /\ PenroseHolds(A, PInvSym(A, raw.K), raw.K)
+        /\ Det(A, raw.K) # 0 => MScale(raw.hs.n, MMul(A, V.num, raw.K), raw.K) = MScale(raw.hs.d * V.den, MId(raw.K), raw.K)
 
 \* KEY INVARIANT.  Family separation: inside each of classical / robust / bootstrap, se, t, p,
 \* correlation and pairwise test are those of THAT family's covariance, recomputed from the raw outcome.
@@ -454,7 +478,7 @@ FamilySeparation == phase = "computed" =>
                   IN  /\ S.se[i] = Opt(ok, Sqrt(v))
                       /\ S.t[i]  = Opt(ok, Div(raw.theta[i], Sqrt(v)))
                       /\ S.p[i]  = Opt(ok, PValue(Div(QAbs(raw.theta[i]), Sqrt(v))))
-                      /\ ok => QMul(S.t2[i].v, v) = QMul(raw.theta[i], raw.theta[i])     \* t^2 var = theta^2
+                      /\ ok => QMulX(S.t2[i].v, v) = QMul(raw.theta[i], raw.theta[i])     \* t^2 var = theta^2
             /\ \A q \in 1..Len(S.pairs) :
                   LET e == S.pairs[q]
                       pn == C.num[e.i][e.i] + C.num[e.j][e.j] - 2 * C.num[e.i][e.j]
@@ -483,6 +507,11 @@ GeneralSane == phase = "computed" =>
         /\ G.rho2n.def => /\ QSub(G.rho2n.v, G.rhobar2n.v) = QNeg(QDiv(I(o.K), o.Ln.v))
                           /\ QMul(QMul(I(-2), o.Ln.v), G.rho2n.v) = G.LRn.v
         /\ G.Kfree.v.n + NActive(o) = o.K
+        \* the N of BIC = -2L + K ln N is the figure the report shows as "Sample size" (for panel data the number
+        \* of individuals), not the number of observations (rows)
+        /\ G.BIC.v = Add(QMul(I(-2), o.L), Mul(I(o.K), App("log", <<G[GeneralKind(o, "Sample size")].v>>)))
+        /\ HasGeneral(o, "Observations") = (o.nobs # o.N)
+        /\ HasGeneral(o, "Observations") => GeneralKind(o, "Observations") = "nobs" /\ G.nobs.v = I(o.nobs)
 
 \* what each column label of the single-model tables names (written independently of the builders)
 Meaning(o) ==
@@ -578,7 +607,7 @@ CompactRaw(o) ==
      active |-> [i \in 1..o.K |-> IsActive(o, i)],
      N |-> o.N, nobs |-> o.nobs, excl |-> o.excl,
      L |-> Compact(o.L), L0 |-> CX(o.L0), Ln |-> CX(o.Ln),
-     g |-> o.g, H |-> o.H, B |-> o.B,
+     g |-> o.g, H |-> o.H, B |-> o.B, hs |-> <<o.hs.n, o.hs.d>>, bs |-> <<o.bs.n, o.bs.d>>, rankH |-> RankH(o),
      boot |-> [ex |-> o.boot.ex, r |-> o.boot.r], mc |-> o.mc]
 
 CompactGeneral(G) == [k \in DOMAIN G |-> CO(G[k])]
